@@ -5,6 +5,7 @@ import GontainerModel.Lemmas.C06Aux
 import GontainerModel.Model.Compile
 import GontainerModel.Generated.Wiring
 import GontainerModel.Lemmas.PatternDeps
+import GontainerModel.Lemmas.ArgsCompiled
 namespace GM.C06
 open GM GM.Output
 
@@ -155,6 +156,31 @@ theorem accepted_param_refs_resolve (o : Output) (h : validateParamsExist o = []
     unfold paramRefs
     simp only [List.mem_append, List.mem_flatMap, List.mem_map]
     exact Or.inr ⟨(d, i), hz, n, ⟨a, ha, hn⟩, rfl⟩
+
+/-- **at run time, for every program that runs the compiler's output**: the name the runtime looks up for a `@service` argument
+(`svcByName`, the look-up whose failure is the error `service does not exist`) is declared — for arguments, fields and calls of
+services and for arguments of decorators -/
+theorem compiled_service_refs_declared (p : Runtime.Prog) (bv : String) (i : Input.Input) (hc : Runtime.CompiledFrom p bv i)
+    (h : validateServicesExist p.out = []) :
+    (∀ s ∈ p.out.services, ∀ a ∈ s.allArgs, Runtime.argKind a = some .service →
+        (Runtime.svcByName p (a.depServices.headD "")).isSome = true) ∧
+    (∀ d ∈ p.out.decorators, ∀ a ∈ d.args, Runtime.argKind a = some .service →
+        (Runtime.svcByName p (a.depServices.headD "")).isSome = true) := by
+  have hw := (Runtime.compiled_recorded p bv i hc).1
+  have hr := accepted_service_refs_resolve p.out h
+  constructor
+  · intro s hs a ha hk
+    exact hr.1 s hs a ha _ (Runtime.headD_mem _ _ ((hw.1 s hs a ha).1 hk))
+  · intro d hd a ha hk
+    exact hr.2 d hd a ha _ (Runtime.headD_mem _ _ ((hw.2 d hd a ha).1 hk))
+
+/-- … and every `%reference%` the runtime's tokeniser finds in a compiled parameter names a declared parameter: the look-up
+whose failure is `param does not exist` succeeds -/
+theorem compiled_param_refs_declared (p : Runtime.Prog) (bv : String) (i : Input.Input) (hc : Runtime.CompiledFrom p bv i)
+    (h : validateParamsExist p.out = []) :
+    ∀ prm ∈ p.out.params, ∀ n ∈ Runtime.refsOf p prm.raw, (p.out.params.find? (·.name == n)).isSome = true := by
+  intro prm hprm n hn
+  exact (accepted_param_refs_resolve p.out h).1 prm hprm n ((Runtime.compiled_recorded p bv i hc).2 prm hprm n hn)
 
 -- non-vacuity: a decorator argument referencing an undeclared parameter IS a reference position
 def witness : Output :=
